@@ -326,6 +326,12 @@ def c11(case, run):
                 bad.append(("C11-completion-differs", "order %s complete=%s (%s), exchange complete=%s" % (o["o"], o["complete"], o["status"], b["complete"])))
         elif o["complete"] and o["live"]:
             bad.append(("C11-complete-in-live-list", "order %s is complete but still in the live list" % o["o"]))
+    # ... and counts towards its strategy's live-trade accounting on the right runner (market, selection, handicap)
+    for k, (trades, live) in recount(last).items():
+        c = last["ctx"].get(k, {"trades": 0, "live": 0})
+        viol = any(o["status"] == "Violation" for o in last["orders"] if "%d/%s" % (o["strategy"], o["sel"]) == k)
+        if (c["trades"], c["live"]) != (len(trades), len(live)) and not viol:
+            bad.append(("C11-accounting-differs", "runner context %s counts %d trades / %d live, the orders held locally give %d / %d (contexts: %s)" % (k, c["trades"], c["live"], len(trades), len(live), last["ctx"])))
     # every live bet of a known strategy is held by exactly one local order (adoption)
     for b in last["exchange"]:
         if isinstance(b["strategy"], int) and not b["complete"] and seen_bets.get(b["id"], 0) != 1:
